@@ -43,7 +43,8 @@ func genConn(t *rapid.T) ConnCase {
 		pl := rig.ConnPlan{Kind: "serve", ALPN: alpn, NReq: rapid.IntRange(1, 3).Draw(t, "nreq"), Limit: -1}
 		if alpn == "h2" {
 			// the connection goes idle after its last stream ended normally or abnormally
-			pl.LastStream = rapid.SampledFrom([]string{"", "", "client-rst", "early-response", "malformed"}).Draw(t, "last")
+			pl.LastStream = rapid.SampledFrom([]string{"", "", "client-rst", "early-response", "malformed", "self-dependent"}).Draw(t, "last")
+			pl.H2Extra = rapid.SliceOfNDistinct(rapid.SampledFrom([]string{"wu-conn", "wu-stream", "priority", "ping", "settings"}), 0, 3, rapid.ID[string]).Draw(t, "extra")
 		}
 		return ConnCase{"idle", pl}
 	case 5:
@@ -54,7 +55,11 @@ func genConn(t *rapid.T) ConnCase {
 		}
 		return ConnCase{"stall", pl}
 	default:
-		return ConnCase{"normal", rig.ConnPlan{Kind: "serve", ALPN: alpn, NReq: rapid.IntRange(0, 3).Draw(t, "nreq"), Limit: -1}}
+		pl := rig.ConnPlan{Kind: "serve", ALPN: alpn, NReq: rapid.IntRange(0, 3).Draw(t, "nreq"), Limit: -1}
+		if alpn == "h2" {
+			pl.H2Extra = rapid.SliceOfNDistinct(rapid.SampledFrom([]string{"wu-conn", "wu-stream", "priority", "ping", "settings"}), 0, 3, rapid.ID[string]).Draw(t, "extra")
+		}
+		return ConnCase{"normal", pl}
 	}
 }
 
